@@ -1,6 +1,7 @@
 import Proofs.SpaceRows
 import Proofs.SpaceCheckers
 import Proofs.RealLog
+import Proofs.SpaceObject
 
 /-!
 # C09 — Space transforms round-trip and stay inside their bounds
@@ -157,6 +158,90 @@ theorem C09_checker_accepts_exact (L E : Rat → Rat) (hM : MonoOn L) (hI : InvO
   · simp only [checkRoundTrip, Bool.and_eq_true, List.all_eq_true]
     exact ⟨rows_close_refl X, hX⟩
 
+/-! ### one `Space` object over a history of transformer changes (`Model/SpaceObject.lean`)
+
+The state of the object is its list of dimensions; every query (`transformed_size`,
+`transformed_bounds`, `transformed_n_dims`, `transform`, `inverse_transform`) is a function of the
+current list (`layout`, `transform`, `inverseTransform` applied to it) — there is nothing else to
+go stale.  The theorems say that the property holds of the object after *any* accepted history of
+`Dimension.set_transformer` / `Space.set_transformer` (string or list) / `set_transformer_by_type` /
+`normalize_dimensions` steps, for the transformers in force at that moment and the points of the
+space as it was declared. -/
+
+/-- **C09 (a history only replaces transformers).**  After any accepted history the object has the
+dimensions it was declared with — position by position the same class, bounds, prior / categories
+(`sameDecl`) — all still well-formed, and exactly the same points. -/
+theorem C09_history_decl (dims0 dims : List Dim) (ops : List SpaceOp)
+    (h : runOps dims0 ops = .ok dims) :
+    dims.length = dims0.length ∧
+    (∀ (j : Nat) (d0 d : Dim), dims0[j]? = some d0 → dims[j]? = some d → d0.sameDecl d = true) ∧
+    ((∀ d ∈ dims0, d.wf = true) → ∀ d ∈ dims, d.wf = true) ∧
+    ∀ r : List Val, memRow dims r = memRow dims0 r := by
+  have rel := runOps_rel ops dims0 dims h
+  exact ⟨relDims_length rel, fun j d0 d h0 h1 => relDims_get rel j d0 d h0 h1,
+    fun hw => relDims_wf rel hw, relDims_memRow rel⟩
+
+/-- **C09 (the property after any history).**  Whatever accepted sequence of transformer changes
+one `Space` object went through — dimension-level ones included —, for every non-empty list of points
+of the declared space `transform` succeeds with the transformers now in force, the round trip
+returns exactly the points, and `transform(X)` has `len(X)` rows of the *current*
+`transformed_n_dims` columns, every row inside the *current* `transformed_bounds`. -/
+theorem C09_history_roundtrip (L E : Rat → Rat) (hM : MonoOn L) (hI : InvOn L E)
+    (dims0 dims : List Dim) (ops : List SpaceOp) (h : runOps dims0 ops = .ok dims)
+    (hd : dims0 ≠ []) (hwf : ∀ d ∈ dims0, d.wf = true)
+    (X : List (List Val)) (hx : X ≠ []) (hX : ∀ r ∈ X, memRow dims0 r = true) :
+    ∃ Xt, transform L dims X = .ok Xt ∧ inverseTransform L E dims Xt = .ok X ∧
+      Xt.length = X.length ∧
+      ∀ row ∈ Xt, row.length = (layout L dims).nDims ∧ inBounds row (layout L dims).bounds = true := by
+  obtain ⟨hlen, _, hw, hmem⟩ := C09_history_decl dims0 dims ops h
+  have hd' : dims ≠ [] := by
+    intro e
+    rw [e] at hlen
+    exact hd (List.eq_nil_of_length_eq_zero hlen.symm)
+  have hwf' := hw hwf
+  have hX' : ∀ r ∈ X, memRow dims r = true := fun r hr => by rw [hmem r]; exact hX r hr
+  obtain ⟨Xt, h1, h2⟩ := C09_roundtrip L E hM hI dims X hd' hx hwf' hX'
+  obtain ⟨Xt', h1', hs1, hs2⟩ := C09_shape L hM dims X hd' hx hwf' hX'
+  obtain ⟨Xt'', h1'', hb⟩ := C09_bounds L hM dims X hd' hx hwf' hX'
+  have e1 : Xt' = Xt := Except.ok.inj (h1'.symm.trans h1)
+  have e2 : Xt'' = Xt := Except.ok.inj (h1''.symm.trans h1)
+  rw [e1] at hs1 hs2
+  rw [e2] at hb
+  exact ⟨Xt, h1, h2, hs1, fun row hr => ⟨hs2 row hr, hb row hr⟩⟩
+
+/-- **C09 (a dimension-level switch is seen by the space).**  `space.dimensions[j].set_transformer(t)`
+replaces the transformer of dimension `j` — the state the space computes its layout from — and
+leaves every other dimension exactly as it was. -/
+theorem C09_history_setDim (dims dims' : List Dim) (j : Nat) (t : TrName)
+    (h : (SpaceOp.setDim j t).apply dims = .ok dims') :
+    (∃ d d', dims[j]? = some d ∧ dims'[j]? = some d' ∧ d.setTransformer t = .ok d' ∧
+      d'.trName = t ∧ d.sameDecl d' = true) ∧
+    ∀ i, i ≠ j → dims'[i]? = dims[i]? := by
+  obtain ⟨⟨d, d', h1, h2, h3⟩, h4⟩ := setAt_get dims j t dims' h
+  have s := setTransformer_spec d d' t h3
+  exact ⟨⟨d, d', h1, h2, h3, s.2.1, s.1⟩, h4⟩
+
+/-- **C09 (`normalize_dimensions` on a living space).**  It is accepted by every space, and
+afterwards every dimension is normalized: the warped space has `n_dims` columns and
+`transformed_bounds` is `(0, 1)` for each of them — whatever the layout was before. -/
+theorem C09_history_normalize_dimensions (L : Rat → Rat) (dims : List Dim) :
+    ∃ dims', SpaceOp.normalizeDims.apply dims = .ok dims' ∧
+      (layout L dims').names = dims.map (fun _ => TrName.normalize) ∧
+      (layout L dims').nDims = dims.length ∧
+      (layout L dims').bounds = List.replicate dims.length (0, 1) := by
+  obtain ⟨dims', h, hn⟩ := normalizeDims_accepted dims
+  have hall : ∀ d ∈ dims', d.trName = .normalize := by
+    intro d hd
+    have : d.trName ∈ dims'.map Dim.trName := List.mem_map_of_mem hd
+    rw [hn] at this
+    obtain ⟨_, _, e⟩ := List.mem_map.mp this
+    exact e.symm
+  have hl : dims'.length = dims.length := by
+    have := congrArg List.length hn
+    simpa using this
+  obtain ⟨h1, h2⟩ := normalized_layouts L dims' hall
+  exact ⟨dims', h, hn, by simp [layout, h1, hl], by simp [layout, h2, hl]⟩
+
 /-! ### non-vacuity: the hypotheses are satisfiable by non-trivial states -/
 
 theorem monoOn_id : MonoOn (fun x => x) := fun _ _ _ h => h
@@ -183,6 +268,41 @@ example : (transform (fun x => x) exDims exX).toOption.map (fun Xt => (Xt.length
 example : (transform (fun x => x) exDims exX).toOption.bind
     (fun Xt => (inverseTransform (fun x => x) (fun x => x) exDims Xt).toOption) = some exX := by
   decide +kernel
+
+/-! ### non-vacuity of the history theorems: a history of every kind of step on the mixed space -/
+
+abbrev exOps : List SpaceOp :=
+  [.setDim 2 .onehot, .normalizeDims, .setByType .cat .label, .setDim 4 .onehot,
+   .setEach [.identity, .identity, .onehot, .label, .normalize, .identity], .setAll .normalize,
+   .setDim 5 .identity, .setDim 0 .identity]
+
+/-- the history is accepted; the width of the warped space after every step follows the switches:
+8 at construction, then 10, 6, 6, 8, 8, 6, 6, 6 -/
+example : (layoutsAlong (fun x => x) exDims exOps).map (fun l => l.toOption.map Layout.nDims) =
+    [some 10, some 6, some 6, some 8, some 8, some 6, some 6, some 6] := by decide +kernel
+
+example : (runOps exDims exOps).toOption.map (fun dims => dims.map Dim.trName) =
+    some [.identity, .normalize, .normalize, .normalize, .normalize, .identity] := by decide +kernel
+
+/-- … and the round trip on the object after the history returns the points -/
+example : (runOps exDims exOps).toOption.bind (fun dims =>
+    (transform (fun x => x) dims exX).toOption.bind
+      (fun Xt => (inverseTransform (fun x => x) (fun x => x) dims Xt).toOption)) = some exX := by
+  decide +kernel
+
+/-- a dimension-level switch of a used space changes its layout: one-hot (3 columns, three `(0, 1)`
+pairs) → label (1 column, `(0, 2)`); a layout remembered from before the switch would be wrong -/
+example : ((SpaceOp.setDim 0 .label).apply [.cat [.str "a", .str "b", .str "c"] .onehot]).toOption.map
+      (fun dims => ((layout (fun x => x) dims).nDims, (layout (fun x => x) dims).bounds)) = some (1, [(0, 2)]) ∧
+    (layout (fun x => x) [.cat [.str "a", .str "b", .str "c"] .onehot]).nDims = 3 := by
+  decide +kernel
+
+/-- rejected steps: a name the class does not know, a list of names that is too short, an index
+past the last dimension -/
+example : errOf ((SpaceOp.setAll .label).apply exDims) = some .valueError ∧
+    errOf ((SpaceOp.setEach [.identity]).apply exDims) = some .indexError ∧
+    errOf ((SpaceOp.setDim 6 .normalize).apply exDims) = some .indexError ∧
+    errOf ((SpaceOp.setDim 2 .identity).apply exDims) = some .unsupported := by decide +kernel
 
 /-! ### regression witnesses of the repaired defects -/
 
